@@ -561,7 +561,7 @@ func topLevelComment(in []byte) bool {
 }
 
 // matchRef compares documents with the reference decoder; discrepancies that are
-// C02's known findings (int64 top decade, escaped surrogate pairs) are not C03's.
+// C02's known finding (int64 top decade) is not C03's.
 func matchRef(cs Case, c *vrt.Ctx, name string, docs [][]byte, o outcome) {
 	if o.err != nil {
 		c.Fail("reject-valid", name, fmt.Sprintf("%v on %q", o.err, clip(cs.Input)), "mode:"+cs.Mode)
@@ -585,7 +585,7 @@ func matchRef(cs Case, c *vrt.Ctx, name string, docs [][]byte, o outcome) {
 		var ms []cmpx.Mismatch
 		cmpx.MatchTree(n, o.raw[i], "$", &ms)
 		for _, m := range ms {
-			if m.Kind == "number-inf" || has(m.Tags, "int64-top-decade") || has(m.Tags, "pair-as-two-replacements") {
+			if m.Kind == "number-inf" || has(m.Tags, "int64-top-decade") {
 				c.Class("c02-known-or-dontcare")
 				continue
 			}
